@@ -1,6 +1,7 @@
 #!/bin/bash
 # run every claimed check's thorough tier, 3 at a time; prints one line per check
 cd "$(dirname "$0")/.."
-ids=$(python3 -c "import json;print(' '.join(c['property_id'] for c in json.load(open('MANIFEST.json'))['checks']))")
+ids="$*"
+[ -z "$ids" ] && ids=$(python3 -c "import json;print(' '.join(c['property_id'] for c in json.load(open('MANIFEST.json'))['checks']))")
 mkdir -p .work/thorough
 echo $ids | tr ' ' '\n' | xargs -P 3 -I{} bash -c 't0=$(date +%s); ./verif check {} --tier thorough > .work/thorough/{}.log 2>&1; rc=$?; echo "THOROUGH {} rc=$rc wall=$(( $(date +%s)-t0 ))s $(grep -m1 "VIOLATION\|HARNESS-ERROR" .work/thorough/{}.log | cut -c1-160)"'
